@@ -12,6 +12,7 @@ import Driver.ApReq
 import Driver.Spnego
 import Driver.KdcRep
 import Driver.Client
+import Driver.Shared
 
 open Driver
 
@@ -34,6 +35,7 @@ def dispatch (line : String) : String :=
       else if op.startsWith "sp." then Spnego.handle op args
       else if op.startsWith "kr." then KdcRep.handle op args
       else if op.startsWith "cl." then Client.handle op args
+      else if op.startsWith "sh." then Shared.handle op args
       else none
     match r with
     | some s => s
